@@ -3,12 +3,17 @@ import PromModel.Promql.RateFns
 /-
   Suite `promqlrate` (property C30).
   ops:  `s <t_ms> <value f64 hex> <st_ms>`                        append a sample to the case's series
-        `q <fn> <range_ms> <offset_ms> <eval_ts_ms> <useST 0|1>`  fn ∈ rate increase delta irate idelta resets changes
+        `q <fn> <range_ms> <offset_ms> <eval_ts_ms> <useST 0|1> [obs=v:<hex>|obs=none] [exact]`
+                                                                  fn ∈ rate increase delta irate idelta resets changes;
+                                                                  `obs=` records the value the harness observed (ignored on replay,
+                                                                  re-observed), see `renderTol`
   out:  s → `ok` | `err`
         q → `none w=<0|1>` | `v <f64 hex> w=<0|1>`   (w = start-time-overlap warning)
 
-  model : the transcription run with `Arith.f64` (every operation correctly rounded to binary64) —
-          its output must equal the engine's bit for bit.
+  model : the transcription run with `Arith.f64` (every operation correctly rounded to binary64).
+          With the `exact` token its output must equal the engine's bit for bit (true on the anchored
+          tree, `-x exact=1`); by default an observed value within 2^-40 relative of the model value is
+          echoed, so only numerically significant differences are disagreements.
   judge : the *documented* algorithm over exact rationals, evaluated independently of the
           transcription, compared with the implementation's value decoded exactly from its bits.
           Tolerance (documented): |impl − exact| ≤ 2^-40 · max(|exact|, 2^-4 · max|v| · unit)
@@ -55,15 +60,21 @@ structure Query where
   off : Int
   ts : Int
   useST : Bool
+  /-- the value the harness observed (recorded in the op line), if any -/
+  obs : Option Nat := none
+  /-- `exact` token: compare bit for bit instead of up to the rounding tolerance -/
+  exact : Bool := false
 
 def parseQuery? (ts : List String) : Option Query :=
   match ts with
-  | ["q", fn, r, o, t, u] => do
+  | "q" :: fn :: r :: o :: t :: u :: extra => do
     let r ← r.toInt?
     let o ← o.toInt?
     let t ← t.toInt?
     if r ≤ 0 then none else
-    pure ⟨fn, r, o, t, u = "1"⟩
+    let obs := extra.findSome? fun e =>
+      if e.startsWith "obs=v:" then natOfHex? (e.drop 6).toString else none
+    pure { fn := fn, range := r, off := o, ts := t, useST := u = "1", obs := obs, exact := extra.contains "exact" }
   | _ => none
 
 def parseSample? (ts : List String) : Option Raw :=
@@ -81,6 +92,29 @@ def Query.re (q : Query) : Int := q.ts - q.off
 def windowOf (q : Query) (st : List Raw) : List FSample :=
   (windowRaw q.rs q.re st).map (toFS (q.useST && tracksST q.fn))
 
+def absR (q : Rat) : Rat := if q < 0 then -q else q
+def maxR (a b : Rat) : Rat := if a < b then b else a
+def eps : Rat := F64.pow2 (-40)
+
+/-- `|x − exact| ≤ 2^-40 · max(|exact|, floor)` -/
+def close (x exact floor : Rat) : Bool := absR (x - exact) ≤ eps * maxR (absR exact) floor
+
+def maxAbsV (w : List Sample) : Rat := w.foldl (fun m s => maxR m (absR s.v)) 0
+
+/-- The model's answer for a rate-type query. The model value is computed with correctly rounded
+    binary64 operations (`Arith.f64`). Unless the op carries `exact`, an observed value within the
+    documented rounding tolerance of the model value is echoed, so that a numerically harmless
+    re-association in the implementation is not a disagreement; anything farther away is answered
+    with the model's own bits (and the lines differ). -/
+def renderTol (q : Query) (unit : Rat) (w : List Sample) (r : Option Rat) (warn : Bool) : String :=
+  match r, q.obs with
+  | some m, some ob =>
+    if q.exact then render r warn else
+    match F64.f64ToRat ob with
+    | some x => if close x m (maxAbsV w * unit / 16) then renderBits (if ob = 2 ^ 63 then 0 else ob) warn else render r warn
+    | none => render r warn
+  | _, _ => render r warn
+
 def modelQuery (st : List Raw) (q : Query) : String :=
   let fw := windowOf q st
   match q.fn with
@@ -95,11 +129,11 @@ def modelQuery (st : List Raw) (q : Query) : String :=
     | none => "unmodelled"
     | some w =>
       match fn with
-      | "rate" => render (extrapolatedRate .f64 true true q.rs q.re q.range w) (overlapWarned w)
-      | "increase" => render (extrapolatedRate .f64 true false q.rs q.re q.range w) (overlapWarned w)
-      | "delta" => render (extrapolatedRate .f64 false false q.rs q.re q.range w) false
-      | "irate" => render (instantValue .f64 true w) false
-      | "idelta" => render (instantValue .f64 false w) false
+      | "rate" => renderTol q (1000 / (q.range : Rat)) w (extrapolatedRate .f64 true true q.rs q.re q.range w) (overlapWarned w)
+      | "increase" => renderTol q 1 w (extrapolatedRate .f64 true false q.rs q.re q.range w) (overlapWarned w)
+      | "delta" => renderTol q 1 w (extrapolatedRate .f64 false false q.rs q.re q.range w) false
+      | "irate" => renderTol q (1000 / (q.range : Rat)) w (instantValue .f64 true w) false
+      | "idelta" => renderTol q 1 w (instantValue .f64 false w) false
       | _ => "bad-op"
 
 /-- The head accepts a sample iff it is newer than the series' last one (generated series are
@@ -123,13 +157,6 @@ def model (ops : List String) : List String :=
   go [] ops
 
 /-! ### judge -/
-
-def absR (q : Rat) : Rat := if q < 0 then -q else q
-def maxR (a b : Rat) : Rat := if a < b then b else a
-def eps : Rat := F64.pow2 (-40)
-
-/-- `|x − exact| ≤ 2^-40 · max(|exact|, floor)` -/
-def close (x exact floor : Rat) : Bool := absR (x - exact) ≤ eps * maxR (absR exact) floor
 
 inductive Out where
   | none (w : Bool)
@@ -164,8 +191,6 @@ def docCandidates (q : Query) (isCounter isRate : Bool) (w : List Sample) : List
   [(11 : Rat) / 10 * (1 - eps), (11 : Rat) / 10 * (1 + eps)].map fun c =>
     ((Doc.piecesC c isCounter q.rs q.re w).map Doc.Pieces.increase).map fun x =>
       if isRate then x / rangeSecExact q else x
-
-def maxAbsV (w : List Sample) : Rat := w.foldl (fun m s => maxR m (absR s.v)) 0
 
 def describe (q : Query) : String :=
   s!"fn={q.fn} range={q.range} off={q.off} ts={q.ts} useST={w01 q.useST}"
